@@ -160,7 +160,11 @@ def run_case(case: dict) -> list:
                 covered = []
             symlinks = sorted(x.relative_to(root).as_posix() for x in root.rglob("*") if x.is_symlink())
             (d / "sentinel" / "started-here").mkdir(exist_ok=True)
-            s0, o0 = snap(root), snap(d / "sentinel")
+            # the time stamp of a tracked file changes (its content does not): Git's cached stat information is stale now,
+            # and a `git status` that takes optional locks would rewrite .git/index - which belongs to the tree as well
+            t = 1_700_000_000_000_000_000 + (case["tid"] * 16 + k) * 1_000_000_000
+            os.utime(root / "src" / "b.c", ns=(t, t))
+            s0, o0 = snap(root, skip_git=False), snap(d / "sentinel")
             args, cwd = command_line(root, c)
             # every path is given absolutely: the directory the tool is started in must not matter - an unrelated
             # directory (watched: part of the sentinel), or a subdirectory of the project
@@ -170,7 +174,7 @@ def run_case(case: dict) -> list:
             elif case["tid"] % 3 == 2 and (root / "src").is_dir():
                 cwd = root / "src"
             r = core.run_reuse(args, cwd=cwd)
-            s1, o1 = snap(root), snap(d / "sentinel")
+            s1, o1 = snap(root, skip_git=False), snap(d / "sentinel")
             changed, created, removed = diff(s0, s1)
             oc, ocr, orm = diff(o0, o1)
             crash = r["exc"] or ""
@@ -190,8 +194,8 @@ def run(ctx: core.Ctx) -> int:
     q = ctx.quick
     rnd = random.Random(ctx.seed)
     ctx.assumptions += [
-        "snapshots compare type, size, mode, mtime, SHA-1 and link target of every path of the project (without .git/, whose "
-        "index `git status` may refresh) and of an outside sentinel directory that two symlinks point into",
+        "snapshots compare type, size, mode, mtime, SHA-1 and link target of every path of the project (.git/ included; the cached "
+        "stat information of the index is made stale before every command) and of an outside sentinel directory that two symlinks point into",
         "the set of covered files used for the footprint of `annotate -r` is the tool's own lint listing of the state before "
         "the command (its correctness is C03's subject)",
         "download runs against a stub network that always succeeds",
